@@ -96,7 +96,7 @@ AggLaw ==
         gr == Grid(sc) IN
     \A i \in 1..Len(gr) :
        LET in == Eval(sc, 1, gr[i])  out == Eval(sc, 2, gr[i]) IN
-       /\ ~out.err /\ ~HasDupLS(out.vec)
+       /\ out.why = {} /\ ~HasDupLS(out.vec)
        /\ SumVals([y \in 1..Len(out.vec) |-> out.vec[y].val]) = I(Len(in.vec))
        /\ \A y \in 1..Len(out.vec) : \A p \in out.vec[y].ls : p[1] # "__name__" \/ (gp.by /\ "__name__" \in ToSet(gp.grp))
 
